@@ -70,6 +70,8 @@ def script_text(df, ver, rule):
                     lines.append('    { printf "%s" "$OUT"; vpad; } > "$3"')
                 if ch in ('direct', 'directold'):
                     lines.append('    { printf "%s" "$OUT"; vpad; } > "$1"')
+                if ch == 'filedir':
+                    lines.append('    mkdir "$3"')          # $3 created as a directory
                 if ch == 'filedel':
                     lines.append('    { printf "%s" "$OUT"; vpad; } > "$3"; rm -f "$3"')      # created, then deleted again
                 if ch == 'directold':
@@ -500,6 +502,9 @@ def replay_group(prog, alts, root, bindir, trace=None, log_mode=None, jflag=None
     direct = any(o['op'] == 'out' and o['ch'] in ('direct', 'directold') for vers in prog['rules'].values()
                  for ver in vers for ops in ver.values() for o in ops)
 
+    # (with a failing rule and no --keep-going the set of targets started depends on the command-line order)
+    has_exit = any(o['op'] in ('exit', 'failif') for vers in prog['rules'].values() for ver in vers for ops in ver.values() for o in ops)
+
     def want_cat(cat):
         return cats is None or cat in cats or cat.split('.')[0] in cats
 
@@ -585,7 +590,7 @@ def replay_group(prog, alts, root, bindir, trace=None, log_mode=None, jflag=None
                 argv.append('-j%d' % step['j'])
             argv += list(step['targs'])
             extra = {'REDO_KEEP_GOING': '1'} if step['keep'] else {}
-            if jitter and step.get('j', 1) > 1 and (kill_seed + i) % 2 == 1:
+            if jitter and step.get('j', 1) > 1 and (kill_seed + i) % 2 == 1 and not has_exit:
                 extra['REDO_SHUFFLE'] = '1'         # --shuffle: the order of the command-line targets is a schedule too
             pre = pj.snapshot()['files'] if watch else None
             rc, so, se, started, to = pj.run(argv, timeout=cmd_timeout, extra_env=extra)
